@@ -221,4 +221,37 @@ def allRuns : List (String × Bool × Bool × String) :=
 
 end JCollDemo
 
+/-! ## Reserved names
+
+The JSON counterpart of the section "Reserved names" of `Spec/RoundTripCollCheck.lean`: every feature of `x.Doc` in
+turn as the reserved feature `self_` / `type_` (written under the key `self` / `type`, `@self` / `@type` for
+references), and the type system made with `createFeature`.  Every run evaluates to `(true, ok [])`. -/
+
+namespace JResDemo
+open Cassis.Xmi.CollDemo Cassis.Xmi.ResDemo
+
+def run (n stored : String) : Bool × Except Err (List (Int × Option String)) :=
+  (jcollAppliesB K (resTs n stored) [cas] 0 (resHp n stored), roundTripDiffsJ K (resTs n stored) [cas] 0 (resHp n stored) 0 1)
+
+def allRuns : List (String × String × Bool × String) :=
+  (docRec.own.map (·.name)).flatMap (fun n =>
+    ["self_", "type_"].map (fun stored => (n, stored, (run n stored).1, showDiffs (run n stored).2)))
+
+/-- (test, differences, the keys of the first structure of the type `x.R`) -/
+def viaCreate : Bool × Except Err (List (Int × Option String)) × Option (List String) :=
+  (jcollAppliesB K tsC [casC] 0 hpC, roundTripDiffsJ K tsC [casC] 0 hpC 0 1,
+   match saveJson K tsC [casC] 0 hpC .none with
+   | .ok (doc, _) => (doc.fss.find? (fun j => j.ty == "x.R")).map (fun j => j.feats.map (·.1))
+   | .error _ => none)
+
+-- 44 runs, each `(feature, stored name, true, "ok []")`:
+#eval allRuns
+#eval allRuns.all (fun r => r.2.2.1 && r.2.2.2 == "ok []")          -- true
+-- (true, ok [], keys self, @type, @peer, begin, end, @sofa):
+#eval (viaCreate.1, showDiffs viaCreate.2.1, viaCreate.2.2)
+-- the flat instance: (true, "ok []")
+#eval (jcollAppliesB K flatTs [flatCas] 0 flatHp, showDiffs (roundTripDiffsJ K flatTs [flatCas] 0 flatHp 0 1))
+
+end JResDemo
+
 end Cassis.Json
